@@ -178,6 +178,33 @@ def test_tiny_perturbations_are_different_objects():
     assert M.field_of_dtype('int32') == 'Real' and M.field_of_dtype('<U2') is None
 
 
+def test_one_field_variants_and_array_owners():
+    k = M.keys
+    vs = M.one_field_variants(False)
+    classes = set(v[0] for v in vs)
+    assert {'IntervalProd', 'RectGrid', 'RectPartition', 'DiscretizedSpace', 'ProductSpace',
+            'ArrayWeighting', 'ConstWeighting', 'NumpyTensorSpace'} <= classes
+    names = set(M.name(r) for r in M.universe('quick'))
+    for cls, field, base, var in vs:
+        assert M.name(base) in names and M.name(var) in names
+        if field != 'axis_labels':
+            assert k(base)[0] != k(var)[0], (cls, field)        # differ ...
+        else:
+            assert k(base)[0] == k(var)[0]                      # labels are not part of ==
+    # the pair the statement is about: identical grid, different set, base nodes on the boundary
+    p = ('Part', ('IP', 0, 1), ('Grid', (0, 0.5, 1)))
+    q = ('Part', ('IP', -0.25, 1.25), ('Grid', (0, 0.5, 1)))
+    assert k(p)[0][2] == k(q)[0][2] and k(p)[0][1] != k(q)[0][1]
+    assert k(p)[0] == k(('UPart', 0, 1, 3, True))[0]
+    assert k(q)[0] == k(('UPart', -0.25, 1.25, 3, False))[0]
+    r2 = ('TS', 2, 'float64', None, None, 2.0)
+    assert M.arrays_used(('PW', ('PW', r2, 2, 'arr', 'A2', 2.0), 2, 'arr', 'B2', 2.0)) == \
+        ['B2', 'A2']
+    assert M.arrays_used(('TS', 2, 'float64', 'list', 'A2', 2.0)) == []
+    assert M.arrays_used(('UD', 0, 1, 2, (('weighting', 'A2'),))) == ['A2']
+    assert M.arrays_used(('TS', 2, 'float64', 'W', ('W', 'ArrT', 'A2', 2.0), 2.0)) == ['A2']
+
+
 if __name__ == '__main__':
     for name, f in sorted(globals().items()):
         if name.startswith('test_'):
